@@ -140,6 +140,12 @@ def _resolve_helper(M, fn, call: ast.Call):
     if q is None or q not in M.funcs or q == fn.qual:
         return None
     h = M.funcs[q]
+    if isinstance(f, ast.Attribute) and f.value.id in ("self", "cls") and h.cls:
+        # dynamic dispatch: the base-class body is what runs only when no subclass (and no class decorator, which stores
+        # generated functions under the same name) provides its own
+        for g in M.funcs.values():
+            if g is not h and g.node.name == f.attr and (("<locals>" in g.qual) or (g.cls and g.cls != h.cls and h.cls in M.mro(g.cls))):
+                return None
     if h.mod != fn.mod:
         # another module only for a helper of a class in the caller's own hierarchy (a shared base-class helper)
         if not (fn.cls and h.cls and h.cls in M.mro(fn.cls)):
